@@ -83,6 +83,7 @@ struct State {
     int64_t countdown = 0;
     std::vector<uint32_t> pct_points;
     uint32_t pct_low = 0;
+    int atomic_depth = 0;
     AccessObserver acc_obs = nullptr;
     const char* acc_lo = nullptr; const char* acc_hi = nullptr;
     SyncObserver sync_obs = nullptr;
@@ -213,6 +214,7 @@ static void fatal(int status, const char* what) {
 static void schedule(int kind, uint64_t obj) {
     State& g = *G;
     Task* me = g.tasks[g.cur];
+    if (g.atomic_depth > 0 && me->st == T_RUNNABLE) return;
     g.st.steps++;
     g.now += g.cfg.tick_ns;
     g.st.sim_ns = g.now;
@@ -303,6 +305,9 @@ static void schedule(int kind, uint64_t obj) {
     }
 }
 
+void atomic_begin() { if (G) G->atomic_depth++; }
+void atomic_end() { if (G && G->atomic_depth > 0) G->atomic_depth--; }
+
 void yield(int kind, uint64_t obj) {
     if (!simulating()) return;
     schedule(kind, obj);
@@ -359,7 +364,7 @@ void begin(const Config& cfg, FatalHandler on_fatal) {
     g.tasks.clear(); g.mutexes.clear(); g.conds.clear(); g.ids.clear(); g.trace.clear();
     g.cfg = cfg; g.st = Stats(); g.on_fatal = on_fatal; g.trace_fp = fp;
     g.replay.swap(keep_replay); g.replay_pos = 0;
-    g.seq = 0; g.now = 0; g.acc_obs = nullptr; g.sync_obs = nullptr;
+    g.seq = 0; g.now = 0; g.acc_obs = nullptr; g.sync_obs = nullptr; g.atomic_depth = 0;
     uint64_t s = cfg.seed ^ 0x5c4ed5c4ed5c4ed5ull;
     g.sched.seed(splitmix64(s));
     Task* t0 = new Task(); t0->id = 0; sem_init(&t0->sem, 0, 0); t0->prio = 1000000; g.tasks.push_back(t0);
